@@ -248,6 +248,42 @@ static void do_min(const char *op) {
   free(buf); free(wrk); free(d); free(x0); free(o.p);
 }
 
+/* ---- cumulative distribution functions shared with the model (Stats/HistExpect.lean): same operation order on both sides ---- */
+struct cdf_prm { int fam; double c[2]; };
+static double h_cdf(double x, void *params) {
+  struct cdf_prm *p = (struct cdf_prm *) params;
+  if (p->fam == 0) { if (x < p->c[0]) return 0.; if (x > p->c[1]) return 1.; return (x - p->c[0]) / (p->c[1] - p->c[0]); }
+  if (p->fam == 1) { if (x < p->c[0]) return 0.; return 1. - exp(-(p->c[1] * (x - p->c[0]))); }
+  return exp(-(exp(-(p->c[1] * (x - p->c[0])))));
+}
+static int cdf_args(struct cdf_prm *p) {
+  const char *f = h_arg("cdf"); double *c; int nc, i;
+  if (!f) return 0;
+  p->fam = !strcmp(f, "unif") ? 0 : !strcmp(f, "exp") ? 1 : !strcmp(f, "gumbel") ? 2 : -1;
+  if (p->fam < 0) return 0;
+  nc = parse_bits_list(h_arg("c"), &c); for (i = 0; i < 2; i++) p->c[i] = i < nc ? c[i] : 0.; free(c);
+  return 1;
+}
+static uint64_t canon_bits(double d) { uint64_t u; if (d != d) return 0x7ff8000000000000ULL; memcpy(&u, &d, 8); return u; }
+/* run a plot function into a temporary file and count what it printed: rows of the first and second data set, sum of the second
+ * column of the first data set (counts), and the last second-column value of the first data set */
+static void plot_table(int surv) {
+  FILE *fp = tmpfile(); char line[256]; int set = 0, rows[2] = {0, 0}, nsets = 0; double sum = 0., last = 0., a, b; int st;
+  if (!fp) { h_out("esys"); return; }
+  st = surv ? esl_histogram_PlotSurvival(fp, H) : esl_histogram_Plot(fp, H);
+  rewind(fp);
+  while (fgets(line, sizeof(line), fp)) {
+    if (line[0] == '&') { set++; nsets++; continue; }
+    if (set < 2 && sscanf(line, "%lf %lf", &a, &b) == 2) { rows[set]++; if (set == 0) { sum += b; last = b; } }
+  }
+  fclose(fp);
+  if (st != eslOK) { h_out("%s", h_status(st)); return; }
+  if (surv) {
+    if (H->Nc > 0 && H->Nc <= 10000) h_out("ok sets=%d rows1=%d rows2=%d cum=%ld", nsets, rows[0], rows[1], lround(last * (double) H->Nc));
+    else h_out("ok sets=%d rows1=%d rows2=%d cum=-", nsets, rows[0], rows[1]);
+  } else h_out("ok sets=%d rows1=%d rows2=%d sum=%.0f", nsets, rows[0], rows[1], sum);
+}
+
 static void h_op(void)
 {
   const char *op = h_words[0];
@@ -316,6 +352,24 @@ static void h_op(void)
   } else if (!strcmp(op, "hsxpfit")) {
     double mu = 0, la = 0, tau = 0; int st; alarm(H_FIT_TIMEOUT); st = esl_sxp_FitCompleteBinned(H, &mu, &la, &tau);
     alarm(0); out_fit(st, 3, mu, la, tau);
+  } else if (!strcmp(op, "hexpect")) {
+    struct cdf_prm prm; if (!cdf_args(&prm)) { h_out("bad-op"); return; }
+    h_out("%s", h_status(esl_histogram_SetExpect(H, h_cdf, &prm)));
+  } else if (!strcmp(op, "hexptail")) {
+    struct cdf_prm prm; if (!cdf_args(&prm)) { h_out("bad-op"); return; }
+    h_out("%s", h_status(esl_histogram_SetExpectedTail(H, h_argbits("base"), h_argbits("pmass"), h_cdf, &prm)));
+  } else if (!strcmp(op, "hexpdump")) {
+    if (!H->expect) h_out("ok null emin=%d tailfit=%d done=%d", H->emin, H->is_tailfit ? 1 : 0, H->is_done ? 1 : 0);
+    else { uint64_t h = 0xcbf29ce484222325ULL; int i, npos = 0;
+      for (i = 0; i < H->nb; i++) { h = fnv(h, canon_bits(H->expect[i])); if (H->expect[i] > 0.) npos++; }
+      h_out("ok nb=%d emin=%d tailfit=%d done=%d tailbase=%s tailmass=%s npos=%d hash=%016" PRIx64, H->nb, H->emin, H->is_tailfit ? 1 : 0,
+            H->is_done ? 1 : 0, bits6(0, H->tailbase), bits6(1, H->tailmass), npos, h); }
+  } else if (!strcmp(op, "hgood")) {
+    int nbins = -7; double G = -7., Gp = -7., X2 = -7., X2p = -7.; int st = esl_histogram_Goodness(H, (int) h_argi("nfitted", 0), &nbins, &G, &Gp, &X2, &X2p);
+    if (st == eslEINVAL) h_out("einval");      /* thrown before anything is answered ("no expected counts in that histogram") */
+    else h_out("%s nbins=%d G=%s Gp=%s X2=%s X2p=%s", h_status(st), nbins, bits6(0, G), bits6(1, Gp), bits6(2, X2), bits6(3, X2p));
+  } else if (!strcmp(op, "hplot")) { plot_table(0);
+  } else if (!strcmp(op, "hplotsurv")) { plot_table(1);
   } else h_out("bad-op");
 }
 int main(void) { return h_main(); }
